@@ -505,6 +505,9 @@ class GenS(GenF):
                 opts.append(("tacc", V("put"), 1))
             if ty == multi(INT, STR) and "pua" in names:
                 opts.append(("at", V("pua"), self.ftyped(FLOAT if wrong else INT, env, d - 1, noise)))
+            if ty == multi(INT, STR) and "pua" in names:
+                bb = lambda: self.ftyped(FLOAT if wrong else INT, env, d - 1, noise) if r.random() < 0.6 else None
+                opts.append(("at", ("slice", V("pua"), bb(), bb(), bb()), self.ftyped(INT, env, d - 1, noise)))
             if ty == multi(INT, STR) and "puf" in names:
                 opts.append(("call", V("puf"), [self.ftyped(FLOAT if wrong else INT, env, d - 1, noise)]))
             if ty == INT and "pum" in names and "ci" in names and r.random() < 0.2:
@@ -514,6 +517,9 @@ class GenS(GenF):
             if its:
                 # `it $]`: collecting a hand-written iterator
                 opts.append(("post", "collect", V(r.choice(its))))
+            if ty == multi(arr(INT), STR) and "pua" in names:
+                b = lambda: self.ftyped(FLOAT if wrong else INT, env, d - 1, noise) if r.random() < 0.6 else None
+                opts.append(("slice", V("pua"), b(), b(), b()))
             if ty == arr(INT) and "pug" in names:
                 opts.append(("call", V("pug"), [self.ftyped(FLOAT if wrong else INT, env, d - 1, noise), self.ftyped(STR, env, d - 1, noise)]))
             if ty == INT and "puc" in names and getattr(self, "_ins", 0) == 0:
